@@ -106,7 +106,7 @@ static inline int64_t utcp_gettime_ms(void)
 static inline double utcp_gettime(void)
 {
 	struct utcp_config* utcp_config = utcp_get_config();
-	return ((double)utcp_config->ElapsedTime) / 1000 / 1000 / 1000 + 1;
+	return ((double)utcp_config->ElapsedTime) / 1000 / 1000 + 1;
 }
 
 static inline void utcp_listener_outgoing(struct utcp_listener* fd, const void* buffer, size_t len)
